@@ -5,11 +5,13 @@ import (
 	"encoding/json"
 	"fmt"
 	"net/url"
+	"runtime"
 	"testing"
 
 	"verifharness/internal/cmpx"
 	"verifharness/internal/ev"
 	"verifharness/internal/gen"
+	"verifharness/internal/kf"
 
 	ds "github.com/ipfs/go-datastore"
 	dssync "github.com/ipfs/go-datastore/sync"
@@ -180,6 +182,37 @@ func decTargets() []decTarget {
 	return ts
 }
 
+// KFAlloc: ugorji codec v1.2.6 (dependency) allocates the announced length
+// when it decodes an array32 header into a byte-string-like field, so a
+// 20-byte message costs gigabytes and seconds.
+const KFAlloc = "C08-msgpack-length-alloc"
+
+// hugeLen reports whether the input contains something that looks like a
+// 32-bit msgpack length header announcing more than 64 KiB.
+func hugeLen(in []byte) bool {
+	for i := 0; i+4 < len(in); i++ {
+		switch in[i] {
+		case 0xdd, 0xdf, 0xdb, 0xc6, 0xc9:
+			if n := uint32(in[i+1])<<24 | uint32(in[i+2])<<16 | uint32(in[i+3])<<8 | uint32(in[i+4]); n > 1<<16 {
+				return true
+			}
+		}
+	}
+	return false
+}
+
+// allocated runs f and returns the bytes allocated meanwhile (whole
+// process; legs run one case at a time).
+func allocated(f func()) uint64 {
+	var a, b runtime.MemStats
+	runtime.ReadMemStats(&a)
+	f()
+	runtime.ReadMemStats(&b)
+	return b.TotalAlloc - a.TotalAlloc
+}
+
+const allocBound = 1 << 30 // "never crashes" includes: a <= 1 KiB input must not cost a GiB
+
 func TestDecodeMsgpack(t *testing.T) {
 	targets := decTargets()
 	leg := ev.L("decode-msgpack", "msgpack decoder into every record type (Pin, LogOp, PinInfo, GlobalPinInfo, ID, IPFSID, Metric, Alert, AddedOutput, RepoGC, GlobalRepoGC, ConnectGraph, NodeWithMeta, IPFSRepoStat, Version, Error, PinPath): "+ruleDec)
@@ -192,10 +225,18 @@ func TestDecodeMsgpack(t *testing.T) {
 			}
 			return b
 		})
+		if kf.Open(KFAlloc) && hugeLen(in) {
+			leg.Excl("input with a 32-bit length header > 64 KiB skipped (" + KFAlloc + ")")
+			return
+		}
 		accepted := false
 		noPanic(t, "msgpack "+tg.name, in, func() {
 			v := tg.zero()
-			if err := mpDecode(in, v); err != nil {
+			var err error
+			if n := allocated(func() { err = mpDecode(in, v) }); n > allocBound {
+				t.Fatalf("msgpack decode of a %d-byte input into %s allocated %d MiB (input %x)", len(in), tg.name, n>>20, in)
+			}
+			if err != nil {
 				return
 			}
 			accepted = true
